@@ -1090,6 +1090,9 @@ pub fn inpub_rich(qos: u8, pid: u16) -> InPub {
             Prop { id: 0x0B, val: PVal::Var(300) },
             Prop { id: 0x08, val: PVal::Str(b"r/t".to_vec()) },
             Prop { id: 0x26, val: PVal::Pair(b"k".to_vec(), b"w".to_vec()) },
+            // variable byte integers with an all-zero middle group and at the 28-bit maximum
+            Prop { id: 0x0B, val: PVal::Var(16384) },
+            Prop { id: 0x0B, val: PVal::Var(268_435_455) },
         ],
     }
 }
